@@ -7,6 +7,9 @@ def run(c):
     vx = lc.run_vecindex(c, c.pick(["v31_5", "v11_5"], ["v31_6", "v11_6", "v211_6"]), "forkless-cause", ["forkless-cause"])
     c.guard("model_fc_answers", vx["total"].get("fc_answers", 0))
     c.guard("model_states_with_forks", vx["total"].get("states_with_forks", 0))
+    # DAGs found by TLC simulation on which a mis-stated forkless cause (fork of B's creator ignored / cheaters counted) changes frames or Atropoi
+    cor = lc.run_exhaustive(c, ["corpus:forkless"], "forkless-cause", orders=3)
+    c.guard("corpus_dags", cor["total"].get("states", 0))
     res = lc.run_profile(c, "c05", c.pick(8, 100), "forkless-cause")
     st = res["stats"]
     c.guard("fc_queries", st.get("fc_queries", 0))
